@@ -7,3 +7,9 @@ META = {
         "technique": "runtime oracle: real functions vs math/big reference model on generated + boundary-directed inputs",
     },
 }
+META["C18"] = {
+    "level": "exploration",
+    "level_text": "the real stores' answers equal a reference sorted map on every operation sequence up to a bounded length over a small alphabet (exhaustive) and on seeded long random histories incl. re-opens and cursor/modification interleavings; concurrent histories are linearizable per round (porcupine). Held on the histories explored.",
+    "level_note": "reference map + porcupine + bbolt trusted; postgres back-end not runnable offline; power-loss semantics out of scope",
+    "technique": "runtime differential oracle: real back-ends vs reference map over exhaustive short and random long histories; porcupine linearizability of recorded concurrent histories",
+}
